@@ -1833,6 +1833,11 @@ func elementToBytes(el *etree.Element) ([]byte, error) {
 	}
 
 	doc := etree.NewDocument()
+	// Write a carriage return in character data as &#xD;, the way XML
+	// canonicalization does. Written literally, the next parser normalizes it
+	// to a line feed, which alters the value and no longer matches a signature
+	// computed over the canonical form.
+	doc.WriteSettings.CanonicalText = true
 	doc.SetRoot(el.Copy())
 	for space, uri := range namespaces {
 		doc.Root().CreateAttr("xmlns:"+space, uri)
